@@ -722,6 +722,13 @@ POSTPONED_NAMES = ('PP_evaluable', 'PP_name_error', 'PP_attribute_error', 'PP_ty
                    'PP_value_error', 'PP_forwards_to_type_error', 'PP_K.method')
 
 
+def safe_evaluated(obj):
+    try:
+        return sigtools.signature(obj).evaluated()
+    except Exception:  # noqa
+        return None
+
+
 def check_annotated(st):
     """Annotations are arbitrary objects (ANN_SRC) and, under PEP 563, arbitrary expressions that need not evaluate
     (POSTPONED_SRC): retrieval and the Sphinx hook have to cope with both."""
@@ -734,6 +741,31 @@ def check_annotated(st):
         check_object('annotated:AN_K().method', batch.get('AN_K')().method, st, 'annotated')
     finally:
         batch.close()
+    # two modules re-exporting under one package name (numpy's set_module pattern): the same annotation text denotes a
+    # different class in each
+    twins = []
+    for tag in ('client', 'server'):
+        b = progs.Batch(prelude='', future=True)
+        b.add('class Options(object):\n    side = %r\n\n\ndef connect(opts: Options, retries: int = 3) -> Options:\n    return opts\n' % tag, 3)
+        b.load()
+        twins.append(b)
+    try:
+        for b in twins:
+            b.modules[0].connect.__module__ = 'vfc07_facade_pkg'
+        for b in twins:
+            mod = b.modules[0]
+            before = st.nviol
+            check_sphinx(mod.__name__ + '.connect', mod.connect, st)
+            sig = safe_evaluated(mod.connect)
+            if sig is not None and sig.parameters['opts'].annotation is not mod.Options:
+                st.violation('sphinx-hook-inconsistent', {'origin': 'annotated', 'name': 'connect'},
+                             {'object': 'postponed:connect re-exported as vfc07_facade_pkg.connect (%s)' % mod.Options.side,
+                              'evaluated': str(sig), 'annotation_denotes': '%s.Options' % mod.__name__}, {'part': 'evaluated'})
+            for v in st.viol[before:]:
+                v['case'] = {'origin': 'annotated', 'name': 'connect'}
+    finally:
+        for b in twins:
+            b.close()
     batch = progs.Batch(prelude='', future=True)
     batch.add(POSTPONED_SRC, 10)
     batch.load()
